@@ -436,6 +436,9 @@ def impl(case):
     if k == "validate":
         res = _validate_call(case)
         n = len(case["rows"])
+        if not case.get("taut", True):
+            # tautomer path: results may be True / False / None (enumeration failed): [] = None, [b] otherwise
+            return [[([] if x is None else [bool(x)]) for x in r["results"]] for r in res]
         out = []
         for col, r in zip(case["cols"], res):
             rs = [bool(x) for x in r["results"]]
@@ -527,8 +530,8 @@ def coq_case(case):
             lv = "[" + "; ".join("[" + "; ".join(E.cN(a) for a in v) + "]" for v in case["lvars"]) + "]"
             return "run_helpers %s %s %s %s" % (E.coq_mgraph(E.from_nx(gh[0])), E.coq_mgraph(E.from_nx(gh[1])), pv, lv)
         if k == "validate":
-            if not ST.ascii_ok(case["method"]) or not case.get("taut", True):
-                return None                         # the tautomer path (RDKit enumeration) is judged by the oracle only
+            if not ST.ascii_ok(case["method"]):
+                return None
             memo = {}
 
             def opt(r):
@@ -542,6 +545,18 @@ def coq_case(case):
                 gs = [_valid_graphs(r[c]) for r in case["rows"] for c in ["gt"] + list(case["cols"])]
                 if not _its_in_domain([g for g in gs if g is not None] or [_valid_graphs("[CH4:1]>>[CH4:1]")]):
                     return None
+            if not case.get("taut", True):
+                # the tautomer strings are RDKit's enumeration through the library's own helper: an oracle input of the model
+                from synkit.Chem.utils import enumerate_tautomers
+
+                def tauts(gt):
+                    try:
+                        ts = enumerate_tautomers(gt)
+                    except Exception:
+                        ts = None
+                    return "None" if ts is None else "(Some [%s])" % "; ".join(opt(t) for t in ts)
+                rows = ["(%s, %s, [%s])" % (opt(r["gt"]), tauts(r["gt"]), "; ".join(opt(r[c]) for c in case["cols"])) for r in case["rows"]]
+                return "run_validate_t %s %s false %d%%nat [%s]" % (ST.cbytes(case["method"]), "true" if case["ia"] else "false", len(case["cols"]), "; ".join(rows))
             rows = ["(%s, [%s])" % (opt(r["gt"]), "; ".join(opt(r[c]) for c in case["cols"])) for r in case["rows"]]
             return "run_validate %s %s %d%%nat [%s]" % (ST.cbytes(case["method"]), "true" if case["ia"] else "false", len(case["cols"]), "; ".join(rows))
         if k == "subgraph":
@@ -1536,15 +1551,15 @@ ASSUMPTIONS = [
 TESTED_NOT_PROVED = [
     "history independence of the IMPLEMENTATION (no stale instance state / module-level cache / aliasing of returned objects): every step of "
     "every history is compared with a fresh evaluation and with the pure model function; in the model it holds by construction",
-    "FixAAM.fix_aam_rsmi is a renumbering, NormalizeAAM.fit keeps the reaction centre (oracle only); smiles_check_tautomer (fresh-vs-history only); "
-    "back-end morgan (oracle only)",
+    "NormalizeAAM.fit keeps the reaction centre (oracle only); back-end morgan (oracle only)",
     "the RDKit contracts named as premises (canonical writer is a function of the graph, parse-write round trip, canonical SMILES of one fragment "
     "is a fixed point, remove_atom_mapping's canonical side string does not depend on atom order / fragment order / numbers): oracle on every run",
     "CalcMolFormula string equality <=> equal element counts and charge (RDKit oracle; the graph-level formula is proved, the verdicts are compared on every run)",
     "rsmi_to_graph / graph_to_smi (RDKit front and back end of the canonicaliser): same unmapped sides checked by the oracle on every run",
     "WL colours are an input of the model (any ranking); nauty model evaluated only for reactant graphs of <= %d atoms, ITS matcher for <= %d atoms "
     "(larger cases: oracle + reaction-centre matcher only)" % (NAUTY_MAX_ATOMS, ITS_MAX_ATOMS),
-    "validate_smiles: success_rate and the float accuracy (derived by the harness from the modelled exact count), the tautomer path; "
+    "validate_smiles: success_rate and the float accuracy (derived by the harness from the modelled exact count); RDKit's tautomer enumeration "
+    "(oracle input of the modelled smiles_check_tautomer / check_pair); "
     "NormalizeAAM.fit (oracle: reaction centre preserved); list(subgraph.nodes()) of a networkx subgraph-view copy (oracle input of reset_indices_by)",
 ]
 TECHNIQUE = "Coq proof about an executable Gallina model + per-run correspondence (vm_compute) + independent property oracle"
